@@ -769,6 +769,13 @@ def r1_7(ctx, R):
                                                     wrap = True
         ctx.ob("R1.7", b, "loop-head-wraps-cursor", wrap, b.loc(ibb))
     ctx.floor("R1.7", "group-loop-functions", len(fns), 2)
+    # the turn order of the groups not yet visited in this call must survive the removal of an exhausted group
+    for b in fns:
+        for bb, t, fn in direct_sites(b, r"alloc::vec::Vec::<.*>::(swap_remove|remove|pop|drain|retain|truncate)$"):
+            nm = (fn_name(fn) or "").split("::")[-1]
+            ctx.ob("R1.7", b, "exhausted-group-removed-order-preserving@%s" % _site_label(b, bb), nm == "remove", b.loc(bb),
+                   "Vec::%s%s" % (nm, "" if nm == "remove" else ": moves another group into the vacated position, so a group polled earlier in "
+                                  "this call is polled again and one is skipped"))
     # (d) every iteration makes progress, so that `len` iterations really visit every group
     from groups import cursor_events
     for b in fns:
@@ -786,20 +793,23 @@ def r1_7(ctx, R):
                 seen[e[1]] += 1
                 progressed = False
                 for f in ev[i + 1:]:
-                    if f[0] == "ADV" or (f[0] == "REM" and e[1] == "None"):
+                    if f[0] == "ADV":
                         progressed = True
+                    elif f[0] == "REM" and e[1] == "None":
+                        progressed = True     # the following groups shift down: the cursor now names the next one
+                    elif f[0] == "BACK":
+                        progressed = False    # the exhausted group is back (at the end): the cursor must still be moved off it
+                    elif f[0] == "RET":
+                        progressed = progressed or (e[1] == "None" and f[1] == "None")
                         break
-                    if f[0] == "RET":
-                        progressed = (e[1] == "None" and f[1] == "None")
-                        break
-                    if f[0] == "P":
+                    elif f[0] == "P":
                         break
                 if not progressed:
                     bad[e[1]].append(path)
         for outcome in ("Pending", "None"):
             ctx.ob("R1.7", b, "iteration-after-%s-moves-on" % outcome, not bad[outcome] and seen[outcome] > 0, d_loc(b),
                    "after an inner %s the cursor is advanced/reset%s before the next inner poll; %d events, %d without progress" % (
-                       outcome, ", or the exhausted group removed, or Ready(None) returned" if outcome == "None" else "", seen[outcome], len(bad[outcome])),
+                       outcome, ", or the exhausted group removed (and, if it is put back, the cursor moved off it), or Ready(None) returned" if outcome == "None" else "", seen[outcome], len(bad[outcome])),
                    path=bad[outcome][0] if bad[outcome] else None)
 
 
@@ -875,3 +885,5 @@ def run(ctx):
     r1_6(ctx, R)
     r1_7(ctx, R)
     r1_8(ctx, R)
+    import c03
+    c03.index_identity(ctx, R)
